@@ -54,6 +54,8 @@ const (
 	tErr    = "error"
 	tConst  = "const" // untyped integer constant
 	tMachI  = "MachInt"
+	tBig    = "BigInt"   // *big.Int value: unbounded, no overflow panic
+	tBigNew = "BigFresh" // `new(big.Int)`: a fresh receiver / result slot
 	tUnsupp = ""
 )
 
@@ -80,7 +82,7 @@ func goTypeToLean(c *Ctx, e ast.Expr) string {
 }
 
 func leanTypeName(t string) string {
-	if t == tMachI || t == tConst {
+	if t == tMachI || t == tConst || t == tBig {
 		return "Int"
 	}
 	return t
@@ -235,6 +237,9 @@ func (t *arithTr) expr(e ast.Expr, sc *scope, pre *[]string, noHoist bool) (stri
 		}
 		t.fail(x, "unsupported binary operator")
 	case *ast.SelectorExpr:
+		if src := t.c.src(x); src == "sdkmath.MaxBitLen" || src == "math.MaxBitLen" {
+			return "256", tConst
+		}
 		s, ty := t.expr(x.X, sc, pre, noHoist)
 		switch {
 		case ty == tCoin && x.Sel.Name == "Denom":
@@ -296,6 +301,26 @@ func (t *arithTr) expr(e ast.Expr, sc *scope, pre *[]string, noHoist bool) (stri
 			return ""
 		}
 		switch fn {
+		case "new":
+			if len(x.Args) == 1 && t.c.src(x.Args[0]) == "big.Int" {
+				return "(0 : Int)", tBigNew
+			}
+			t.fail(x, "unsupported allocation")
+		case "big.NewInt":
+			wantArgs(1)
+			s, ty := arg(0)
+			if ty != tConst && ty != tMachI {
+				t.fail(x, "big.NewInt of %s", ty)
+			}
+			return asInt(s, ty), tBig
+		case "sdkmath.NewIntFromBigInt", "math.NewIntFromBigInt":
+			// returns a nil Int above 256 bits (every later use panics): modelled as failing here
+			wantArgs(1)
+			s, ty := arg(0)
+			if ty != tBig {
+				t.fail(x, "NewIntFromBigInt of %s", ty)
+			}
+			return bind(x, "GoInt.newIntFromBigInt "+s, tInt)
 		case "sdkmath.ZeroInt", "math.ZeroInt":
 			wantArgs(0)
 			return "(0 : Int)", tInt
@@ -392,6 +417,30 @@ func (t *arithTr) expr(e ast.Expr, sc *scope, pre *[]string, noHoist bool) (stri
 				case "Neg":
 					wantArgs(0)
 					return fmt.Sprintf("(- %s)", rs), tInt
+				case "BigInt":
+					wantArgs(0)
+					return rs, tBig // a copy of the value as *big.Int
+				}
+			case tBigNew:
+				// z := new(big.Int).Op(x, y): no aliasing, the result is the value of the expression
+				ops := map[string]string{"Mul": "*", "Add": "+", "Sub": "-"}
+				if op, ok := ops[m]; ok {
+					wantArgs(2)
+					a, at := arg(0)
+					b, bt := arg(1)
+					if at != tBig || bt != tBig {
+						t.fail(x, "big.Int operand types %s, %s", at, bt)
+					}
+					return "(" + a + " " + op + " " + b + ")", tBig
+				}
+			case tBig:
+				switch m {
+				case "Sign":
+					wantArgs(0)
+					return fmt.Sprintf("(GoInt.sign %s)", rs), tMachI
+				case "BitLen":
+					wantArgs(0)
+					return fmt.Sprintf("(GoInt.bitLen %s)", rs), tMachI
 				}
 			case tCoin:
 				switch m {
@@ -475,6 +524,17 @@ func hasReturn(n ast.Node) bool {
 func (t *arithTr) assignedOuter(n ast.Node, sc *scope) []string {
 	set := map[string]bool{}
 	ast.Inspect(n, func(x ast.Node) bool {
+		if es, ok := x.(*ast.ExprStmt); ok {
+			// in-place update v.Op(v, e) of a *big.Int variable
+			if call, ok := es.X.(*ast.CallExpr); ok {
+				if se, ok := call.Fun.(*ast.SelectorExpr); ok {
+					if id, ok := se.X.(*ast.Ident); ok && sc.vars[id.Name] == tBig {
+						set[id.Name] = true
+					}
+				}
+			}
+			return true
+		}
 		as, ok := x.(*ast.AssignStmt)
 		if !ok {
 			return true
@@ -589,6 +649,18 @@ func (t *arithTr) block(stmts []ast.Stmt, sc *scope, ind string, cont func(sc *s
 				}
 				rhs = fmt.Sprintf("GoInt.quoRemInt %s %s", a, b)
 				rtypes = []string{tInt, tInt}
+			} else if se, ok := call.Fun.(*ast.SelectorExpr); ok && se.Sel.Name == "QuoRem" && t.c.src(se.X) == "new(big.Int)" {
+				// q, r := new(big.Int).QuoRem(a, b, new(big.Int)): big.Int T-division, panics on a zero divisor
+				if len(call.Args) != 3 || t.c.src(call.Args[2]) != "new(big.Int)" {
+					t.fail(s, "big.Int.QuoRem must get fresh result slots")
+				}
+				a, at := t.expr(call.Args[0], sc, &pre, false)
+				b, bt := t.expr(call.Args[1], sc, &pre, false)
+				if at != tBig || bt != tBig {
+					t.fail(s, "big.Int.QuoRem argument types")
+				}
+				rhs = fmt.Sprintf("GoInt.quoRemInt %s %s", a, b)
+				rtypes = []string{tBig, tBig}
 			} else {
 				var f *arithFn
 				var recv *string
@@ -644,6 +716,31 @@ func (t *arithTr) block(stmts []ast.Stmt, sc *scope, ind string, cont func(sc *s
 				pat = "(" + strings.Join(pats, ", ") + ")"
 			}
 			emit(pre, fmt.Sprintf("let %s ← %s", pat, rhs))
+		case *ast.ExprStmt:
+			// v.Op(v, e) on a *big.Int variable: in-place update of v
+			call, ok := s.X.(*ast.CallExpr)
+			if !ok {
+				t.fail(s, "unsupported expression statement")
+			}
+			se, ok := call.Fun.(*ast.SelectorExpr)
+			if !ok {
+				t.fail(s, "unsupported expression statement")
+			}
+			recv, ok := se.X.(*ast.Ident)
+			ops := map[string]string{"Mul": "*", "Add": "+", "Sub": "-"}
+			op, okOp := ops[se.Sel.Name]
+			if !ok || !okOp || sc.vars[recv.Name] != tBig || len(call.Args) != 2 {
+				t.fail(s, "unsupported expression statement")
+			}
+			if a0, ok := call.Args[0].(*ast.Ident); !ok || a0.Name != recv.Name {
+				t.fail(s, "in-place big.Int update must have the form v.Op(v, e)")
+			}
+			var pre []string
+			e, et := t.expr(call.Args[1], sc, &pre, false)
+			if et != tBig {
+				t.fail(s, "big.Int operand type %s", et)
+			}
+			emit(pre, fmt.Sprintf("let %s : Int := %s %s %s", leanIdent(recv.Name), leanIdent(recv.Name), op, e))
 		case *ast.DeclStmt:
 			t.fail(s, "declaration statement")
 		case *ast.IfStmt:
